@@ -21,13 +21,23 @@ const TWO52: f64 = 4503599627370496.0;
 #[derive(Clone, Debug)]
 pub struct Scenario {
     pub layout: usize, // 0 free, 1 pillar between start and goal, 2 cage around the tool at the start
-    pub limits: usize, // 0 wide, 1 narrower window, 2 wrapping on J4/J6
+    pub limits: usize, // 0 wide, 1 narrower window, 2 wrapping on J4/J6, 3 non-wrapping but reaching beyond +-pi (J1 in 0..270 deg)
     pub step: f64,
     pub max_try: usize,
+    pub pair: usize, // 0 the standard start/goal, 1 a start/goal pair hugging the lower J1 limit of limit set 3
 }
 
 pub const START: Joints = [0.0, 0.3, 0.3, 0.0, 0.5, 0.0];
 pub const GOAL: Joints = [1.2, 0.3, 0.3, 0.0, 0.5, 0.0];
+
+impl Scenario {
+    pub fn start(&self) -> Joints {
+        if self.pair == 1 { [0.02, 0.3, 0.3, 0.0, 0.5, 0.0] } else { START }
+    }
+    pub fn goal(&self) -> Joints {
+        if self.pair == 1 { [0.02, 0.6, 0.3, 0.0, 0.5, 0.0] } else { GOAL }
+    }
+}
 
 pub fn scenario_cell(s: &Scenario) -> CellDesc {
     let mut cell = CellDesc::standard();
@@ -59,6 +69,7 @@ pub fn scenario_cell(s: &Scenario) -> CellDesc {
     cell.limits = match s.limits {
         1 => Limits { from: [-0.5, -1.0, -1.0, -1.0, -1.0, -1.0], to: [1.5, 1.2, 1.2, 1.0, 1.5, 1.0], weight: 0.0 },
         2 => Limits { from: [-3.1, -3.1, -3.1, 4.0, -3.1, 5.0], to: [3.1, 3.1, 3.1, 2.0, 3.1, 1.0], weight: 0.0 },
+        3 => Limits { from: [0.0, -3.1, -3.1, -3.1, -3.1, -1.0], to: [1.5 * PI, 3.1, 3.1, 3.1, 3.1, 5.5], weight: 0.0 },
         _ => Limits { from: [-3.1; 6], to: [3.1; 6], weight: 0.0 },
     };
     cell
@@ -72,7 +83,8 @@ pub fn alphabet(k: usize) -> Joints {
         2 => [0.6, 0.3, 0.3, 0.0, 0.5, 0.0],   // into the pillar
         3 => [0.6, -0.3, -0.2, 0.0, 0.5, 0.0], // arm raised: passes behind / above the pillar
         4 => [1.4, 1.0, 1.0, 0.9, 1.4, 0.9],   // a far corner
-        5 => [0.3, 0.0, 0.6, -0.5, 0.9, 0.4],
+        // beyond +-pi on J1 and J6 (legal only for the limit set that reaches there; clamped to the range otherwise)
+        5 => [3.6, 0.3, 0.3, 0.0, 0.5, 4.2],
         _ => [0.9, 0.6, -0.1, 0.5, 0.2, -0.6],
     }
 }
@@ -121,7 +133,7 @@ pub fn execute(s: &Scenario, robot: &rs_opw_kinematics::kinematics_with_shape::K
         let a = alphabet(*seq_owned.get(sample).unwrap_or(&0));
         raw_for(lim2.from[joint], lim2.to[joint], a[joint])
     }));
-    let r = catch_unwind(AssertUnwindSafe(|| planner.plan_rrt(&START, &GOAL, robot, &stop)));
+    let r = catch_unwind(AssertUnwindSafe(|| planner.plan_rrt(&s.start(), &s.goal(), robot, &stop)));
     let consumed = verif_hooks::disarm_local_script();
     let _ = draws;
     match r {
@@ -155,10 +167,10 @@ pub fn judge(s: &Scenario, robot: &rs_opw_kinematics::kinematics_with_shape::Kin
         None => {}
     }
     let Ok(path) = &run.result else { return fails };
-    if path.first().map(|p| p.map(f64::to_bits)) != Some(START.map(f64::to_bits)) {
+    if path.first().map(|p| p.map(f64::to_bits)) != Some(s.start().map(f64::to_bits)) {
         fails.push((format!("C13/path-start/{tag}"), format!("path begins with {:?}", path.first())));
     }
-    if path.last().map(|p| p.map(f64::to_bits)) != Some(GOAL.map(f64::to_bits)) {
+    if path.last().map(|p| p.map(f64::to_bits)) != Some(s.goal().map(f64::to_bits)) {
         fails.push((format!("C13/path-goal/{tag}"), format!("path ends with {:?}", path.last())));
     }
     for (i, node) in path.iter().enumerate() {
@@ -178,6 +190,11 @@ pub fn judge(s: &Scenario, robot: &rs_opw_kinematics::kinematics_with_shape::Kin
         for (i, node) in path.iter().enumerate() {
             if arc_member6(&lim.from, &lim.to, node, 1e-9) == ArcVerdict::Outside {
                 fails.push((format!("C13/node-outside-limits/{tag}"), format!("node {i} {node:?} violates the limits")));
+                break;
+            }
+            // non-wrapping limits are plain intervals: start, goal and every sample lie in them, so every node must too
+            if (0..6).any(|j| node[j] < lim.from[j] - 1e-9 || node[j] > lim.to[j] + 1e-9) {
+                fails.push((format!("C13/node-outside-limit-interval/{tag}"), format!("node {i} {node:?} leaves the interval [{:?}, {:?}]", lim.from, lim.to)));
                 break;
             }
         }
@@ -205,7 +222,7 @@ fn explore(s: &Scenario, k_alpha: usize, with_cancel: bool) -> Explored {
         out.executions += 1;
         out.transitions += run.consumed_samples as u64;
         let consumed = run.consumed_samples;
-        let case = |cancel: Option<usize>| json!({"scenario": {"layout": s.layout, "limits": s.limits, "step": s.step, "max_try": s.max_try}, "samples": prefix, "cancel_at": cancel.map(|c| if c == usize::MAX { -1 } else { c as i64 })});
+        let case = |cancel: Option<usize>| json!({"scenario": {"layout": s.layout, "limits": s.limits, "step": s.step, "max_try": s.max_try, "pair": s.pair}, "samples": prefix, "cancel_at": cancel.map(|c| if c == usize::MAX { -1 } else { c as i64 })});
         for (k, d) in judge(s, &robot, &lim, &run, None) {
             out.fails.push((k, d, case(None)));
         }
@@ -243,7 +260,7 @@ fn explore(s: &Scenario, k_alpha: usize, with_cancel: bool) -> Explored {
     let r = execute(s, &robot, &lim, &[], Some(usize::MAX));
     out.executions += 1;
     for (key, d) in judge(s, &robot, &lim, &r, Some(usize::MAX)) {
-        out.fails.push((key, d, json!({"scenario": {"layout": s.layout, "limits": s.limits, "step": s.step, "max_try": s.max_try}, "samples": [], "cancel_at": -1})));
+        out.fails.push((key, d, json!({"scenario": {"layout": s.layout, "limits": s.limits, "step": s.step, "max_try": s.max_try, "pair": s.pair}, "samples": [], "cancel_at": -1})));
     }
     out
 }
@@ -252,16 +269,19 @@ pub fn scenarios(thorough: bool) -> Vec<(Scenario, usize, bool)> {
     // (scenario, alphabet size, with cancellation enumeration)
     let mut v = Vec::new();
     let depth = if thorough { 6 } else { 5 };
-    let k = if thorough { 7 } else { 5 };
+    let k = if thorough { 7 } else { 6 };
     for layout in 0..3 {
-        for limits in 0..3 {
+        for limits in 0..4 {
             for step in [0.05, 0.3, 2.5] {
                 for max_try in 0..=depth {
                     // the deepest budgets only with the coarse steps (cost)
                     if step == 0.05 && max_try > depth - 2 {
                         continue;
                     }
-                    v.push((Scenario { layout, limits, step, max_try }, k, max_try <= 3));
+                    v.push((Scenario { layout, limits, step, max_try, pair: 0 }, k, max_try <= 3));
+                    if limits == 3 && layout == 0 && max_try <= 3 {
+                        v.push((Scenario { layout, limits, step, max_try, pair: 1 }, k, false));
+                    }
                 }
             }
         }
@@ -306,7 +326,7 @@ pub fn run(ctx: &Ctx) -> Report {
     }
     rep.traces_validated = rep.states;
     rep.sample(|| json!({"scenario": {"layout": 1, "limits": 0, "step": 0.3, "max_try": 3}, "samples": [3, 0, 2], "alphabet": (0..5).map(|k| nums(&alphabet(k))).collect::<Vec<_>>()}));
-    rep.rule = "layouts {free, pillar between start and goal, plates around the tool at the start} x limits {wide, window, wrapping on J4/J6} x step {0.05, 0.3, 2.5} x \
+    rep.rule = "layouts {free, pillar between start and goal, plates around the tool at the start} x limits {wide, window, wrapping on J4/J6, non-wrapping beyond +-pi} x step {0.05, 0.3, 2.5} x \
                 max_try 0..D; for each, the tree of sample sequences over the alphabet {goal, start, into the obstacle, around it, far corner, ...} is explored \
                 exhaustively: every execution's consumed positions beyond its prefix branch into every other alphabet member (defaults first); the real \
                 sampler consumes scripted raw draws; oracle on Ok: start/goal bit-equal, every node !collides, consecutive nodes <= 3 steps, nodes within \
@@ -323,6 +343,7 @@ pub fn replay(case: &Value) -> Vec<String> {
         limits: sc["limits"].as_u64().unwrap() as usize,
         step: as_num(&sc["step"]),
         max_try: sc["max_try"].as_u64().unwrap() as usize,
+        pair: sc["pair"].as_u64().unwrap_or(0) as usize,
     };
     let seq: Vec<usize> = case["samples"].as_array().unwrap().iter().map(|x| x.as_u64().unwrap() as usize).collect();
     let cancel = match case["cancel_at"].as_i64() {
